@@ -54,14 +54,14 @@ Inductive chg := NoChange | Exact | AtMost.
 
 Definition op_slot (o : op) : option (oid * fname) :=
   match o with
-  | Observe _ _ _ | Unobserve _ _ _ => None
+  | Observe _ _ _ | Unobserve _ _ _ | ObserveAll _ _ _ | UnobserveAll _ _ _ => None
   | SetRef x f _ | SetCont x f _ _ | Touch x f | Splice x f _ _ _ => Some (x, f)
   | Probe x => Some (x, 0)
   end.
 
 Definition classify (hb ha : heap) (o : op) : chg :=
   match o with
-  | Observe _ _ _ | Unobserve _ _ _ | Touch _ _ => NoChange
+  | Observe _ _ _ | Unobserve _ _ _ | ObserveAll _ _ _ | UnobserveAll _ _ _ | Touch _ _ => NoChange
   | SetRef x f _ => if list_eqb (hb x f) (ha x f) then NoChange else Exact
   | SetCont x f _ de =>
       let new_items := match ha x f with c :: _ => ha c (items_field f) | [] => [] end in
@@ -81,8 +81,11 @@ Definition is_ok (o : outcome) : bool := match o with Ok => true | Raise _ => fa
 Definition call_ok (hb ha : heap) (o : op) (x : oid) (f : fname) (c : call) : bool :=
   let '(_, obj, name, removed, added) := c in
   Nat.eqb obj x && Nat.eqb name f &&
-  (if is_splice o then perm_eqb (ha x f ++ removed) (hb x f ++ added)
-   else perm_eqb removed (hb x f) && perm_eqb added (ha x f)).
+  match o with
+  | Splice _ _ _ _ _ => perm_eqb (ha x f ++ removed) (hb x f ++ added)   (* a faithful delta *)
+  | Probe _ => true                                                      (* integer values are not links *)
+  | _ => perm_eqb removed (hb x f) && perm_eqb added (ha x f)            (* old and new value *)
+  end.
 
 Definition law_step (hb : heap) (rs : list reg) (o : op) (ob : obs) : list Z :=
   let ha := apply_delta hb (ob_delta ob) in
@@ -107,6 +110,8 @@ Definition law_regs (rs : list reg) (o : op) (ob : obs) : list reg :=
   match o, ob_out ob with
   | Observe k r g, Ok => rs ++ [((k, r), g)]
   | Unobserve k r g, Ok => remove_reg ((k, r), g) rs
+  | ObserveAll k r gs, Ok => rs ++ map (pair (k, r)) gs
+  | UnobserveAll k r gs, Ok => fold_left (fun rs g => remove_reg ((k, r), g) rs) gs rs
   | _, _ => rs
   end.
 
